@@ -48,12 +48,12 @@ type undefined struct{ region string }
 
 // regions the documents leave undefined / ambiguous (always avoided, counted)
 const (
-	uDivZero     = "int-div-or-mod-by-zero"       // spec: runtime error, behaviour of the result unspecified
-	uDivOverflow = "int-min-div-minus-one"        // MIN / -1, MIN % -1: not covered by any rule
-	uModSign     = "mod-with-negative-operand"    // sign of % result not specified
-	uFDivZero    = "float-div-by-zero"            // spec lists "Division/modulo by zero" as a runtime error without restricting it to integers
-	uPowNegExp   = "int-pow-negative-exponent"    // not specified
-	uCastNaN     = "float-to-int-cast-of-nan"     // not specified
+	uDivZero     = "int-div-or-mod-by-zero"                       // spec: runtime error, behaviour of the result unspecified
+	uDivOverflow = "int-min-div-minus-one"                        // MIN / -1, MIN % -1: not covered by any rule
+	uModSign     = "mod-with-negative-operand"                    // sign of % result not specified
+	uFDivZero    = "float-div-by-zero"                            // spec lists "Division/modulo by zero" as a runtime error without restricting it to integers
+	uPowNegExp   = "int-pow-negative-exponent"                    // not specified
+	uCastNaN     = "float-to-int-cast-of-nan"                     // not specified
 	uCastAmbig   = "narrowing-cast-with-sign-change-out-of-range" // truncates or saturates? both rules apply
 	uFuel        = "step-budget-exceeded"
 )
